@@ -95,6 +95,7 @@ pub fn make_bases() -> Vec<(String, Xstate)> {
 
 /// returns Err((key, detail)) on a violation
 fn check_program(base: &Xstate, src: &str, with_input: bool, st: &mut Stats) -> Result<(), (String, String, String)> {
+    watch::note(src);
     let mut xs = base.clone();
     if with_input {
         xs.set_binary_input(Xbitstr::from(corpus::BIN_INPUT.to_vec())).unwrap();
